@@ -527,7 +527,40 @@ func runCursorRandom(c *core.Ctx, typ string) {
 	c.Nontrivial()
 }
 
+// cursorSweepOn drives fresh iterators of tree a through every position and
+// operation (the sweep of runCursorSweep, on a given state).
+func cursorSweepOn(c *core.Ctx, a *KV[int, int]) {
+	ks := append([]int(nil), a.M.Keys()...)
+	vs := make([]int, len(ks))
+	for i, k := range ks {
+		vs[i], _ = a.M.Get(k)
+	}
+	n := len(ks)
+	mk := func() *cursor { return keyCursor[int, int](c, a.Name, a.Iter(), ks, vs) }
+	for p := -1; p <= n; p++ {
+		for _, op := range []string{"Next", "Prev", "First", "Last", "NextTo", "PrevTo"} {
+			route := (p + len(op)) % 2
+			kind := []int{predTrue, predFalse, predIndexOrKey, predValue, predFrom}[(p+n+len(op))%5]
+			cu := mk()
+			cu.goTo(p, route)
+			cu.step(op, kind, (p+2)%(n+1))
+			for _, f := range [][]string{{"Prev", "Next", "Next"}, {"Next", "Prev", "Prev"}}[route] {
+				cu.step(f, 0, 0)
+			}
+		}
+	}
+	c.Count("exhaustive:iterator-sweeps-on-distinct-tree-states", 1)
+}
+
 func runC08(c *core.Ctx) {
+	if plans := exhaustivePlans(c.Tier); c.Index < len(plans) {
+		p := plans[c.Index]
+		if p.k > 8 {
+			return // the sweep on every state of the largest universes is left to C01/C02/C07
+		}
+		exhaustiveTree(c, p.label, p.mk, p.k, 400000, func(m *KVMon[int, int]) {}, func(a *KV[int, int]) { cursorSweepOn(c, a) })
+		return
+	}
 	typ := iterTypes[c.Index%len(iterTypes)]
 	if c.Index < 2*len(iterTypes) {
 		runCursorSweep(c, typ)
@@ -546,7 +579,8 @@ func init() {
 		Title: "Iterators are cursors over positions -1..n of the container's sequence",
 		Cases: func(tier string) int { return tierN(tier, 36000, 720000) },
 		Run:   runC08,
-		Rule: "cases 0..35: deterministic sweep per iterator type (18 types, two seeds): every n <= 6, every position -1..n reached by two routes, every operation (Next/Prev/Begin/End/First/Last and NextTo/PrevTo with five predicates), followed by reversal steps; " +
+		Rule: "the first cases visit every reachable state of RedBlackTree, AVLTree and BTree (orders 3..6) over universes of up to 8 keys (see exhaustive_small_scope) and sweep a fresh iterator through every position and operation on each; " +
+			"next, a deterministic sweep per iterator type (18 types, two seeds): every n <= 6, every position -1..n reached by two routes, every operation (Next/Prev/Begin/End/First/Last and NextTo/PrevTo with five predicates), followed by reversal steps; " +
 			"other cases: a container of the type in a state reached by a random history (n in {0,1,2,3,4..70}, wrapped rings, trees after removals, B-tree orders 3..8), three fresh iterators each driven by 40-200 random calls with extra reversals at both sentinels. " +
 			"Each call is mirrored on an integer cursor over the container's own Values()/Keys() sequence; Index/Key/Value are read only after a successful move. Every case is non-trivial (>= 100 iterator calls); distinct = distinct hash of the call list.",
 		Floors: func(tier string, m map[string]int64) []string {
